@@ -2,19 +2,28 @@
 // Dialect vocabulary shared by the interpreter unit (RUN) and the dispatch unit (DIALECT)
 // ---------------------------------------------------------------------------------------------
 
-/// allocator grew (or stayed): old nodes and old checkpoints keep their meaning
-pub open spec fn alloc_grows(n: &Allocator, o: &Allocator) -> bool {
-    &&& n.inv()
-    &&& n.heap_limit == o.heap_limit
-    &&& forall|x: NodePtr| #[trigger] o.valid(x) ==> n.valid(x) && n.tree(x) == o.tree(x)
-    &&& forall|c2: &TransparentCheckpoint| #[trigger] o.consistent(c2) ==> n.consistent(c2)
-}
-
-
 /// what every operator call guarantees to the interpreter (the Dialect::op contract)
 pub open spec fn op_generic(o: &Allocator, n: &Allocator, r: Response) -> bool {
     &&& alloc_grows(n, o)
-    &&& (r is Ok ==> n.valid(r->Ok_0.1) && r->Ok_0.0 <= 0x4000_0000_0000_0000)
+    &&& (r is Ok ==> n.valid(r->Ok_0.1) && r->Ok_0.0 <= 0x4000_0100_0000_0000)
     &&& (r is Err ==> !(r->Err_0 is InternalError))
     &&& (o.capped() ==> n.capped())
+}
+
+/// an operator that left the allocator unchanged meets the allocator part of the generic contract
+pub proof fn lemma_same_state_generic(o: &Allocator, n: &Allocator)
+    requires
+        o.inv(),
+        n.same_state(o),
+    ensures
+        n.inv(),
+        alloc_grows(n, o),
+        o.capped() ==> n.capped(),
+{
+    assert forall|i: int| 0 <= i < n.pair_vec@.len() implies #[trigger] n.pair_ok(i) by {
+        assert(o.pair_ok(i));
+    }
+    assert(n.extends(o));
+    lemma_extends_frame(n, o);
+    assert forall|c2: &TransparentCheckpoint| #[trigger] o.consistent(c2) implies n.consistent(c2) by {}
 }
